@@ -131,6 +131,31 @@ def run_chunk(arg):
     return out
 
 
+MATCH_RES = ["a", "b", "ab", "ba", "^a", "a$", "b$", "^ab$", "^b", ".", "^.$", "^..$", "^...$", "^.{2}$", "^.{3,4}$", "a.b", "a.*b", "^a.*b$", "[^a]", "^[^a]+$", "^[ab]+$", "\\x00", "a\\x00",
+             "\\x00b", "^\\x00", "\\x00$", "b\\x00a", ".\\x00.", "(a|b)\\x00", "a+$", "\\x00+$", "^[^\\x00]+$", "^a?b?\\x00?$", "[\\x00a]b"]
+
+
+def matches_operand_chunk(chunk):
+    """`<string literal> matches /re/flags` for operands that contain NUL bytes: the operand is a counted string, the regexp sees all of it"""
+    import re as pyre
+    w = yv.get_worker("plain")
+    out = []
+    rules = []
+    for k, (op, rx, fl) in enumerate(chunk):
+        lit = "".join("\\x%02x" % c for c in op)
+        rules.append('rule m%d { condition: "%s" matches /%s/%s }' % (k, lit, rx, fl))
+    rep = w.batch(["reset", "compiler 0", "add 0 - " + yv.hx("\n".join(rules)), "getrules 0 0", "cdestroy 0", "scan target=r0 via=mem ml=0 data=" + yv.hx(b"x")])
+    if rep[2]["errors"]:
+        return [("C03:matches-operand:rejected", dict(messages=rep[2]["msgs"][:2]))], 0
+    got = {m[1].split(":")[1]: m[0] == "m" for m in rep[-1]["t"] if m[0] in ("m", "n")}
+    for k, (op, rx, fl) in enumerate(chunk):
+        pat = rx.replace("\\\\", "\\").encode()
+        exp = pyre.search(pat, op, (pyre.I if "i" in fl else 0) | (pyre.S if "s" in fl else 0)) is not None
+        if got.get("m%d" % k) != exp:
+            out.append(("C03:%s:matches-operand-with-nul" % ("missed" if exp else "extra"), dict(operand_hex=op.hex(), regex="/%s/%s" % (rx, fl), expected=exp, observed=got.get("m%d" % k))))
+    return out, len(chunk)
+
+
 def main():
     ck = yv.Check("C03", "exploration")
     quick = ck.tier == "quick"
@@ -341,6 +366,13 @@ def main():
                 ck.violation(sig, dict(regex=src, buffer_hex=v["buffer"], reported=v["got"], expected=v["expected"], build=variant))
             if r["nontrivial"] and not r["viol"] and progs % 1499 == 0:
                 ck.sample(dict(regex=src, buffers_scanned=r["evals"], buffers_with_expected_matches=r["nontrivial"], matches_checked=r["reported"]))
+    ops = [bytes(t) for L in (1, 2, 3, 4) for t in itertools.product(b"ab\0", repeat=L)]
+    mjobs = [(op, rx, fl) for op in ops for rx in MATCH_RES for fl in ("", "is")]
+    nm = 0
+    for viol, k in yv.pmap(matches_operand_chunk, yv.chunked(mjobs, 400), ck):
+        nm += k; ck.cov["evaluations"] += k
+        for sig, d in viol[:3]: ck.violation(sig, d)
+    ck.sub("matches-operand-with-nul", operands=len(ops), regexps=len(MATCH_RES), evaluations=nm, reference="python re on bytes")
     ck.cov["distinct_nontrivial"] = nontriv
     ck.cov["programs"] = progs
     ck.cov["programs_hitting_fiber_limit"] = limited
